@@ -19,7 +19,7 @@ func init() {
 			"limit implementation owning a sampler calls Sample exactly once on every OnSample path with its own three parameters; (O2) every strategy emission carries the " +
 			"in-flight counter value of that very decision (read after the increment on a grant), at most once per decision; (O3) every gauge supplier registered by limits, " +
 			"strategies and limiters is a method value or closure bound to the object the constructor returns (or to its configuration), the limit gauges reading the enforced " +
-			"limit field; (O4) both bundled registries create listeners whose kind tag selects the backend call of the same kind, under prefix+ID, returning the existing " +
+			"limit field, and the queue-size gauge, when bound to a method of the type holding the backlog list, reporting list.Len() or a proved mirror under the queue mutex (the size proof of C12/O2); (O4) both bundled registries create listeners whose kind tag selects the backend call of the same kind, under prefix+ID, returning the existing " +
 			"listener on re-registration; (O5) Start spawns the poller only on the not-started edge and sets the flag there, Stop on the started edge signals, clears the flag " +
 			"and awaits the poller without holding a mutex the poller takes; the poll loop exits on the stop signal and gauges are polled only inside it. Units and poll-time numeric equality are not covered.",
 	})
@@ -32,7 +32,7 @@ func isSampleListenerInvoke(p *Prog, c *Call) bool {
 func runC20(p *Prog, l *Ledger) {
 	l.Rule("O1", "one emission per sample: Sample emits rtt and in-flight once each and the drop counter iff didDrop; every OnSample of a sampler-owning limit calls Sample exactly once with its own parameters")
 	l.Rule("O2", "strategy emissions carry the counter value of the decision (post-increment on a grant), at most once per decision")
-	l.Rule("O3", "gauges are live: suppliers are bound to the constructed object (or its configuration); limit gauges read the enforced limit field")
+	l.Rule("O3", "gauges are live: suppliers are bound to the constructed object (or its configuration); limit gauges read the enforced limit field; the queue-size gauge bound to a method of the backlog reports the length of its list (the C12/O2 size proof)")
 	l.Rule("O4", "registry forwarding: kind tag of a registered listener selects the backend call of the same kind under prefix+ID; re-registration returns the existing listener")
 	l.Rule("O5", "life cycle: Start spawns once and sets started; Stop signals, clears and awaits without holding a mutex the poller needs; the loop exits on the stop signal; gauges are polled only inside the loop")
 	l.NotCovered = []string{"units (go-metrics timer receives nanoseconds scaled as milliseconds)", "numeric equality of gauge and enforced value at poll time under concurrency", "backend behaviour"}
